@@ -26,6 +26,8 @@ func checkC06(c *Ctx) {
 	ruleUnreadTypestate(c, "C06.h")
 	c.rule("C06.j", "every round of a server-side parsing loop consumes input or leaves the loop", 5)
 	ruleParseLoopProgress(c, "C06.j", "imapserver", "internal")
+	c.rule("C06.k", "no allocation is sized by a number the peer announced (a literal header alone must not make the server allocate)", 4)
+	ruleNoWireSizedAlloc(c, "C06.k")
 	c.rule("C06.L", "layering lemma", 1)
 	c.rule("C06.i", "no lock-order cycle or same-mutex nesting on the serving goroutine (a self-deadlocked connection goroutine never ends)", 8)
 	ruleLockOrder(c, "C06.i", newLockAnalysis(c.P, serverRoots(c.P), layeringCut(c, "C06.L")))
